@@ -95,7 +95,7 @@ pub fn prefix_oracle(ix: &LogIndex, key: (usize, usize), kind: QKind, res: &QRes
                 *per_batch.entry(j).or_insert(0) += 1;
                 // the cells of the second column are C01/C07's business (NULLs of a compacted partition), not
                 // C10's: only its presence is required
-                if matches!(kind, QKind::Lack | QKind::Nosuch) && second.is_none() {
+                if matches!(kind, QKind::Lack | QKind::Nosuch | QKind::Cols3) && second.is_none() {
                     return Some(("malformed".into(), format!("row {} has no second column", id)));
                 }
             }
@@ -125,6 +125,7 @@ pub fn prefix_oracle(ix: &LogIndex, key: (usize, usize), kind: QKind, res: &QRes
         QRes::Panic(m) => Some((format!("query-panic:{}", skeleton(m)), format!("query panicked: {}", m))),
         QRes::Hang => Some(("query-hang".into(), "query did not return before the deadline".into())),
         QRes::Malformed(m) => Some(("malformed".into(), m.clone())),
+        QRes::NullId(m) => Some(("null-id".into(), format!("an existing column was reported as absent: {}", m))),
     }
 }
 
